@@ -299,7 +299,7 @@ def run(chk):
     thorough = chk.tier == "thorough"
     hy = pc.hy_mod()
     validate_facts(chk, chk.rng, 20000 if thorough else 2000)
-    n_values = 24000 if thorough else 700
+    n_values = 24000 if thorough else 800
     n_graphs = 4000 if thorough else 150
     chk.rule = ("values = fixed list (incl. the refutation witnesses) + seeded recursive generator over all documented types "
                 "(depth <= 3 quick, <= 5 thorough; strings over quotes, backslashes, controls, Latin-1, non-printables, astral, "
